@@ -3,6 +3,8 @@
 //
 //	o:N  e:N        write N bytes of the deterministic pattern to stdout / stderr
 //	O:N  E:N        same, with a newline every 61 bytes
+//	or:N er:N       same, with CR LF pairs and lone CRs
+//	po:N pe:N       open /dev/stdout resp. /dev/stderr by path again (truncating or appending) and write N bytes there
 //	co   ce         close stdout / stderr
 //	x:N             exit with status N
 //	k:N             kill this process with signal N
@@ -42,6 +44,36 @@ func pattern(n int, newlines bool) []byte {
 	return b
 }
 
+// patternCR is the pattern with a CR LF pair or a lone CR every 61 bytes (kept in sync with hx.EmitPatternCR).
+func patternCR(n int) []byte {
+	b := pattern(n, false)
+	for i := range b {
+		switch {
+		case i%61 == 59:
+			b[i] = '\r'
+		case i%61 == 60 && (i/61)%2 == 0:
+			b[i] = '\n'
+		}
+	}
+	return b
+}
+
+// reopened opens the stream again by its path (as `echo ... > /dev/stderr` does) and writes there.
+func reopened(path string, b []byte, trunc bool) {
+	flags := os.O_WRONLY
+	if trunc {
+		flags |= os.O_TRUNC
+	} else {
+		flags |= os.O_APPEND
+	}
+	f, err := os.OpenFile(path, flags, 0)
+	if err != nil {
+		return // the stream was closed before
+	}
+	writeAll(f, b)
+	f.Close()
+}
+
 func writeAll(f *os.File, b []byte) {
 	for len(b) > 0 {
 		n, err := f.Write(b)
@@ -78,6 +110,14 @@ func main() {
 			writeAll(os.Stdout, pattern(num(), true))
 		case "E":
 			writeAll(os.Stderr, pattern(num(), true))
+		case "or":
+			writeAll(os.Stdout, patternCR(num()))
+		case "er":
+			writeAll(os.Stderr, patternCR(num()))
+		case "po":
+			reopened("/dev/stdout", pattern(num(), true), num()%2 == 0)
+		case "pe":
+			reopened("/dev/stderr", pattern(num(), true), num()%2 == 0)
 		case "co":
 			os.Stdout.Close()
 		case "ce":
